@@ -3,7 +3,9 @@
 
    What is mirrored, with the line anchors of properties.jsonl:
      find                 : end' = end - 1us, ValueError if end' < start, look-back dir_start = start - P
-                            unless there is no sub directory or start = datetime.min
+                            unless there is no sub directory or start = datetime.min; when start - P is not
+                            representable (OverflowError) the look-back is clamped: dir_start = datetime.min
+                            (/repo bd49e45; before that commit the OverflowError left find: find_noclamp)
      _get_search_dirs     : per directory level ("chunk"): literal chunks are skipped; otherwise start/end are
                             truncated to a resolution and every directory is tested by _check_placeholders on
                             the placeholders parsed SO FAR (accumulated over the levels)
@@ -141,8 +143,18 @@ Fixpoint visited (local : bool) (acc : list tfield) (lay : layout) (ds e d : Z) 
 (* _sub_dir_time_resolution: None without sub directory, else the period of the finest directory placeholder *)
 Definition lookback (lay : layout) : Z := match lay with [] => 0 | _ => period (finest (all_fields lay)) end.
 
+(* fileset.py 1154-1160:
+       if self._sub_dir_time_resolution is None or start == datetime.min:  dir_start = start
+       else:
+           try:                   dir_start = start - self._sub_dir_time_resolution
+           except OverflowError:  dir_start = datetime.min
+   datetime - timedelta raises OverflowError exactly when the result lies before datetime.min (= 0 here).
+   For a representable start (0 <= s) this is max(0, s - P)  (Proofs: dir_start_clamp). *)
 Definition dir_start (lay : layout) (s : Z) : Z :=
-  match lay with [] => s | _ => if s =? 0 then s else s - lookback lay end.
+  match lay with
+  | [] => s
+  | _ => if s =? 0 then s else if s - lookback lay <? 0 then 0 else s - lookback lay
+  end.
 
 Definition found (local : bool) (lay : layout) (q : query) (f : file) : bool :=
   let e := qend q - 1 in
@@ -154,11 +166,19 @@ Definition found (local : bool) (lay : layout) (q : query) (f : file) : bool :=
 
 Definition find_gen (local : bool) (lay : layout) (fs : list file) (q : query) : result (list file) :=
   if qend q - 1 <? qstart q then Err ValueErr
-  else if dir_start lay (qstart q) <? 0 then Err OverflowErr
   else Ok (sort_key (filter (found local lay q) fs)).
 
 Definition find_model := find_gen false.     (* the code after fix C01_1 *)
 Definition find_asis  := find_gen true.      (* the code before it *)
+
+(* the code before /repo bd49e45 (fix F-C01-6): the look-back was not clamped, `start - P` raised OverflowError
+   out of find for every start with datetime.min < start < datetime.min + P; elsewhere it is the present code *)
+Definition lookback_overflows (lay : layout) (s : Z) : bool :=
+  match lay with [] => false | _ => negb (s =? 0) && (s - lookback lay <? 0) end.
+Definition find_noclamp (lay : layout) (fs : list file) (q : query) : result (list file) :=
+  if qend q - 1 <? qstart q then Err ValueErr
+  else if lookback_overflows lay (qstart q) then Err OverflowErr
+  else find_model lay fs q.
 
 (* ------------------------------------------------------------------ hypotheses of the theorems *)
 
@@ -186,8 +206,6 @@ Definition valid_file (f : file) : Prop := valid (t0 f) /\ valid (t1 f) /\ t0 f 
 Definition well_placed (f : file) : Prop := tdir f = t0 f.
 Definition short (lay : layout) (f : file) : Prop :=
   match lay with [] => True | _ => t1 f - t0 f <= lookback lay end.
-Definition lookback_ok (lay : layout) (q : query) : Prop :=
-  match lay with [] => True | _ => qstart q = 0 \/ lookback lay <= qstart q end.
 Definition wf_query (q : query) : Prop :=
   valid (qstart q) /\ qstart q < qend q <= dt_max /\ Forall (fun '(a, b) => a <= b) (excl q).
 
@@ -271,10 +289,9 @@ Definition hyps (lay : layout) (fs : list file) : bool := no_gaps lay && forallb
 (* boolean forms of the query hypotheses, evaluated per generated case *)
 Definition wf_queryb (q : query) : bool :=
   validb (qstart q) && (qstart q <? qend q) && (qend q <=? dt_max) && forallb (fun '(a, b) => a <=? b) (excl q).
-Definition lookback_okb (lay : layout) (q : query) : bool :=
-  match lay with [] => true | _ => (qstart q =? 0) || (lookback lay <=? qstart q) end.
 
-(* results as lists of integers (the harness parses nothing else): Ok l -> 0 :: l, errors -> [1] / [2] *)
+(* results as lists of integers (the harness parses nothing else): Ok l -> 0 :: l, errors -> [1] / [2]
+   (find_model never answers [2] any more: the look-back is clamped; find_noclamp and C16's window do) *)
 Definition enc (r : result (list Z)) : list Z :=
   match r with Ok l => 0 :: l | Err ValueErr => [1] | Err OverflowErr => [2] end.
 Definition b2z (b : bool) : Z := if b then 1 else 0.
@@ -286,7 +303,7 @@ Definition run_query (lay : layout) (fs : list file) (q : query) (bk bw : Z) : l
   let sp := find_spec fs q in
   let bsz := fun l : list file =>
     if 0 <? bk then sizes (bundle_n (Z.to_nat bk) l) else if 0 <? bw then sizes (bundle_f bw l) else [] in
-  [ [b2z (wf_queryb q && lookback_okb lay q)];
+  [ [b2z (wf_queryb q)];
     enc (ids (find_model lay fs q));
     [];   (* (the as-is model is evaluated only in Props/C01.v: it is not needed to decide a case) *)
     map fid sp;
@@ -296,7 +313,7 @@ Definition run_query (lay : layout) (fs : list file) (q : query) (bk bw : Z) : l
 (* `t in fileset` for several t, and len(fileset): model and specification *)
 Definition run_contains (lay : layout) (fs : list file) (ex : list (Z * Z)) (ts : list Z) : list (list Z) :=
   map (fun t => [b2z (contains_model lay fs ex t); b2z (existsb (selected (instant t ex)) fs);
-                 b2z (lookback_okb lay (instant t ex) && validb t)]) ts.
+                 b2z (validb t)]) ts.
 Definition run_len (lay : layout) (fs : list file) (ex : list (Z * Z)) : list (list Z) :=
   [[len_model lay fs ex; Z.of_nat (length (filter (selected (everything ex)) fs))]].
 
@@ -308,7 +325,7 @@ Definition run_len (lay : layout) (fs : list file) (ex : list (Z * Z)) : list (l
    hc = hyps lay fs, computed once per case.  Last row of a query: the bin edges of the time bundles. *)
 Definition run_query_lazy (full hc : bool) (lay : layout) (fs : list file) (q : query) (bk bw : Z) : list (list Z) :=
   let sp := find_spec fs q in
-  let hq := wf_queryb q && lookback_okb lay q in
+  let hq := wf_queryb q in
   let bsz := fun l : list file =>
     if 0 <? bk then sizes (bundle_n (Z.to_nat bk) l) else if 0 <? bw then sizes (bundle_f bw l) else [] in
   let md := if full || negb (hc && hq) then Some (find_model lay fs q) else None in
@@ -321,7 +338,7 @@ Definition run_query_lazy (full hc : bool) (lay : layout) (fs : list file) (q : 
   ++ (if 0 <? bw then bundle_edges bw sp else []).
 Definition run_contains_lazy (full hc : bool) (lay : layout) (fs : list file) (ex : list (Z * Z)) (ts : list Z)
   : list (list Z) :=
-  map (fun t => let hq := lookback_okb lay (instant t ex) && validb t in
+  map (fun t => let hq := validb t in
                 [if full || negb (hc && hq) then b2z (contains_model lay fs ex t) else 2;
                  b2z (existsb (selected (instant t ex)) fs); b2z hq]) ts.
 Definition run_len_lazy (full hc : bool) (lay : layout) (fs : list file) (ex : list (Z * Z)) : list (list Z) :=
@@ -348,3 +365,13 @@ Definition ex_ties : list file :=
     mkfile 11 (ex_time 2018 3 5 12) (ex_time 2018 3 5 13) (ex_time 2018 3 5 12) [(0, 0)] false;
     mkfile 13 (ex_time 2018 3 5 11) (ex_time 2018 3 5 13) (ex_time 2018 3 5 11) [(0, 0)] false;
     mkfile 12 (ex_time 2018 3 5 12) (ex_time 2018 3 5 13) (ex_time 2018 3 5 12) [(0, 1)] false ].
+
+(* near datetime.min: layout {year}/{month}/{day}; a file on 0001-01-01 12:00 - 13:00, a file on 0001-01-02 starting
+   exactly at the end of the period, a file in 2018; the period 0001-01-01 00:00:01 -- 0001-01-02 00:00 starts within
+   one look-back (one day) of datetime.min: start - P is not representable *)
+Definition ex_min_lay : layout := [CPat [FYear]; CPat [FMonth]; CPat [FDay]].
+Definition ex_min_files : list file :=
+  [ mkfile 0 (ex_time 1 1 1 12) (ex_time 1 1 1 13) (ex_time 1 1 1 12) [] false;
+    mkfile 1 (ex_time 1 1 2 0) (ex_time 1 1 2 1) (ex_time 1 1 2 0) [] false;
+    mkfile 2 (ex_time 2018 3 5 12) (ex_time 2018 3 5 13) (ex_time 2018 3 5 12) [] false ].
+Definition ex_min_query : query := mkq us_second (ex_time 1 1 2 0) [] [] [].
